@@ -308,7 +308,11 @@ def check(program, modules, domains=None):
                 why = None
                 if key in domains:
                     why = domains[key]
-                elif kind == "container" and _kept(n):
+                elif kind == "container" and _kept(n) and not (
+                        isinstance(n, ast.If) and n.body and
+                        isinstance(n.body[0], ast.Return)):
+                    # (not for ``if not p: return {}``: there the fresh
+                    # container is the result, the caller's is not replaced)
                     why = "an empty container handed in by the caller is " \
                         "exchanged for a private one (%s), so what is " \
                         "added to either afterwards is not seen through " \
